@@ -1,44 +1,347 @@
+// c01: federated execution equals monolithic execution.  Generates (configuration, universe,
+// operation) cases with gvh/fedlab, runs each through the real ExecutionEngine over semantic
+// subgraphs answered by the Coq-extracted reference executor, and compares with the monolithic
+// execution of the same operation by that executor.
+//
+//	c01 gen    -seed S -n N [-from I] [-unis U] [-knobs K] -out cases [-replaydir D] [-shrink M]
+//	c01 one    -seed S -index I [-uni J] [-knobs K] [-exact 1] [-v 1]
+//	c01 corpus -in corpus.tsv -out cases [-replaydir D]
+//	c01 shrink -seed S -index I [-uni J] [-knobs K]
 package main
 
 import (
+	"encoding/json"
 	"fmt"
 	"os"
+	"path/filepath"
+	"strings"
+	"time"
 
+	"gvh/common"
 	"gvh/fedlab"
 )
 
-func main() {
-	cfg, u := fedlab.Example()
-	lab, err := fedlab.NewLab(cfg, u, nil, fedlab.EngineOptions{})
+type runner struct {
+	exec     *fedlab.ExecServer
+	lab      *fedlab.Lab
+	labKey   string
+	labUni   string
+	replays  string
+	nReplays int
+}
+
+func (r *runner) close() {
+	if r.lab != nil {
+		r.lab.Close()
+	}
+	if r.exec != nil {
+		r.exec.Close()
+	}
+}
+
+// labFor returns a Lab for the case's configuration (one engine per configuration; the universe
+// is swapped in the executor).
+func (r *runner) labFor(c *fedlab.Case, key string) (*fedlab.Lab, error) {
+	if r.exec == nil {
+		e, err := fedlab.NewExecServer("")
+		if err != nil {
+			return nil, err
+		}
+		r.exec = e
+	}
+	uniKey := fmt.Sprintf("%s/u%d", key, c.UniIdx)
+	if r.lab != nil && r.labKey == key {
+		if r.labUni != uniKey {
+			if err := r.lab.SetUniverse(c.Uni); err != nil {
+				return nil, err
+			}
+			r.labUni = uniKey
+		}
+		return r.lab, nil
+	}
+	if r.lab != nil {
+		r.lab.Close()
+		r.lab = nil
+	}
+	lab, err := fedlab.NewLab(c.Cfg, c.Uni, r.exec, fedlab.EngineOptions{})
 	if err != nil {
-		fmt.Println("newlab:", err)
+		return nil, err
+	}
+	r.lab, r.labKey, r.labUni = lab, key, uniKey
+	return lab, nil
+}
+
+func (r *runner) run(c *fedlab.Case, key string) (*fedlab.Verdict, error) {
+	lab, err := r.labFor(c, key)
+	if err != nil {
+		return nil, err
+	}
+	return fedlab.Check(lab, c.Op.Text(), c.Op.Name, []byte(c.Op.VariablesJSON()), nil), nil
+}
+
+// ---------------------------------------------------------------- replay files
+
+type replayReq struct {
+	Index     int             `json:"index"`
+	Subgraph  string          `json:"subgraph"`
+	Query     string          `json:"query"`
+	Variables json.RawMessage `json:"variables,omitempty"`
+	Response  json.RawMessage `json:"response,omitempty"`
+	Invalid   string          `json:"invalid,omitempty"`
+}
+
+type replay struct {
+	Seed        uint64            `json:"seed"`
+	Index       int               `json:"index"`
+	Uni         int               `json:"uni"`
+	Knobs       string            `json:"knobs"`
+	Exact       bool              `json:"exact_knobs"`
+	Failed      []string          `json:"failed"`
+	Detail      string            `json:"detail"`
+	Rerun       string            `json:"rerun"`
+	SuperSDL    string            `json:"supergraph_sdl"`
+	SubSDL      map[string]string `json:"subgraph_sdl"`
+	Operation   string            `json:"operation"`
+	Variables   json.RawMessage   `json:"variables"`
+	Universe    string            `json:"universe"`
+	Gateway     string            `json:"gateway_response"`
+	GatewayErr  string            `json:"gateway_error,omitempty"`
+	Reference   string            `json:"reference_data"`
+	RefErrors   int               `json:"reference_errors"`
+	Requests    []replayReq       `json:"requests"`
+	Violations  []string          `json:"violations,omitempty"`
+	ShrunkFrom  string            `json:"shrunk_from,omitempty"`
+	ShrinkSteps []string          `json:"shrink_steps,omitempty"`
+}
+
+func raw(b []byte) json.RawMessage {
+	if len(b) == 0 || !json.Valid(b) {
+		q, _ := json.Marshal(string(b))
+		return q
+	}
+	return json.RawMessage(b)
+}
+
+func mkReplay(c *fedlab.Case, v *fedlab.Verdict, exact bool, lab *fedlab.Lab) *replay {
+	rp := &replay{Seed: c.Seed, Index: c.Index, Uni: c.UniIdx, Knobs: c.Knobs.String(), Exact: exact,
+		Failed: v.Failed(), Detail: v.FailDetail(), Operation: c.Op.Text(), Variables: raw([]byte(c.Op.VariablesJSON())),
+		Universe: c.Uni.Sexp(), SubSDL: map[string]string{}}
+	rp.Rerun = fmt.Sprintf("harness/bin/c01 one -seed %d -index %d -uni %d -knobs %s -exact 1 -v 1", c.Seed, c.Index, c.UniIdx, c.Knobs.String())
+	rp.SuperSDL = c.Cfg.Super.SDL()
+	for _, g := range c.Cfg.Subgraphs {
+		rp.SubSDL[g.Name] = c.Cfg.SubgraphSDL(g)
+	}
+	if v.Gateway != nil {
+		rp.Gateway = string(v.Gateway.Response)
+		if v.Gateway.Err != nil {
+			rp.GatewayErr = v.Gateway.Err.Error()
+		}
+		for _, q := range v.Gateway.Requests {
+			rr := replayReq{Index: q.Index, Subgraph: q.Subgraph, Query: q.Query, Response: raw(q.Response)}
+			if q.Variables != nil {
+				rr.Variables = raw([]byte(q.Variables.String()))
+			}
+			if q.Result != nil {
+				rr.Invalid = q.Result.Invalid
+			}
+			rp.Requests = append(rp.Requests, rr)
+		}
+	}
+	if v.Ref != nil {
+		rp.Reference = v.Ref.Data.String()
+		rp.RefErrors = v.Ref.NErrors
+	}
+	rp.Violations = append(rp.Violations, v.InvalidRequests...)
+	rp.Violations = append(rp.Violations, v.NotOwned...)
+	rp.Violations = append(rp.Violations, v.ReprIncomplete...)
+	return rp
+}
+
+func (r *runner) writeReplay(rp *replay, suffix string) string {
+	if r.replays == "" {
+		return ""
+	}
+	os.MkdirAll(r.replays, 0o755)
+	p := filepath.Join(r.replays, fmt.Sprintf("c01-%d-%d-%d%s.json", rp.Seed, rp.Index, rp.Uni, suffix))
+	b, _ := json.MarshalIndent(rp, "", " ")
+	os.WriteFile(p, b, 0o644)
+	r.nReplays++
+	return p
+}
+
+// ---------------------------------------------------------------- case lines
+
+func flag(b bool) string { return common.B(b) }
+
+// caseLine: what the extracted checker reads.  gw / ref are the data trees; flags are the
+// clause inputs computed by the harness.
+func caseLine(c *fedlab.Case, v *fedlab.Verdict, replayPath string) string {
+	id := fmt.Sprintf("(id %d %d %d %s)", c.Seed, c.Index, c.UniIdx, common.QS(c.Knobs.String()))
+	if v.LabError != "" {
+		return common.L("c01", id, "(laberror "+common.QS(v.LabError)+")")
+	}
+	gw, ref := "(absent)", "(n)"
+	if v.Gateway != nil && v.Gateway.Data != nil {
+		gw = v.Gateway.Data.Sexp()
+	}
+	if v.Ref != nil {
+		ref = v.Ref.Data.Sexp()
+	}
+	viol := []string{"viol"}
+	for _, m := range v.Failed() {
+		viol = append(viol, common.QS(m))
+	}
+	return common.L("c01", id, c.Summary(v),
+		common.L("flags", "(planning "+flag(v.PlanningOK)+")", "(gwerrors "+flag(v.GatewayErrors)+")", "(referrors "+flag(v.RefErrors)+")",
+			"(reqvalid "+flag(len(v.InvalidRequests) == 0)+")", "(owned "+flag(len(v.NotOwned) == 0)+")",
+			"(reprs "+flag(len(v.ReprIncomplete) == 0)+")", "(goequal "+flag(v.DataEqual)+")", "(orderonly "+flag(v.OrderOnly)+")"),
+		common.L("gw", gw), common.L("ref", ref),
+		common.L("detail", common.QS(fedlab.Trunc(v.FailDetail(), 300))), common.L("replay", common.QS(replayPath)),
+		common.L("op", common.QS(fedlab.Trunc(c.Op.Text(), 400))))
+}
+
+// ---------------------------------------------------------------- commands
+
+func cmdGen(a map[string]string) {
+	seed := common.ArgU64(a, "seed", 1)
+	n := common.ArgInt(a, "n", 150)
+	from := common.ArgInt(a, "from", 0)
+	unis := common.ArgInt(a, "unis", 1)
+	maxShrink := common.ArgInt(a, "shrink", 2)
+	knobs := fedlab.ParseKnobs(a["knobs"])
+	out := common.NewOut(a["out"])
+	defer out.Close()
+	r := &runner{replays: a["replaydir"]}
+	defer r.close()
+	t0 := time.Now()
+	evals, fails, shrunk := 0, 0, 0
+	for i := from; i < from+n; i++ {
+		for u := 0; u < unis; u++ {
+			c := fedlab.BuildCase(seed, i, u, knobs, false)
+			key := fmt.Sprintf("%d/%d", seed, c.CfgIdx())
+			v, err := r.run(c, key)
+			if err != nil {
+				out.Line(common.L("c01", fmt.Sprintf("(id %d %d %d %s)", seed, i, u, common.QS(c.Knobs.String())), "(laberror "+common.QS(err.Error())+")"))
+				continue
+			}
+			evals++
+			path := ""
+			if v.LabError == "" && len(v.Failed()) > 0 {
+				fails++
+				rp := mkReplay(c, v, true, r.lab)
+				path = r.writeReplay(rp, "")
+				if shrunk < maxShrink {
+					shrunk++
+					if sp := r.shrink(c, v); sp != "" {
+						path = sp
+					}
+				}
+			}
+			out.Line(caseLine(c, v, path))
+		}
+	}
+	el := time.Since(t0).Seconds()
+	fmt.Fprintf(os.Stderr, "c01 gen: %d evaluations, %d failing, %.1fs (%.1f cases/s), executor calls %d\n", evals, fails, el, float64(evals)/el, r.exec.Calls)
+}
+
+func cmdOne(a map[string]string) {
+	seed := common.ArgU64(a, "seed", 1)
+	idx := common.ArgInt(a, "index", 0)
+	uni := common.ArgInt(a, "uni", 0)
+	exact := a["exact"] == "1"
+	c := fedlab.BuildCase(seed, idx, uni, fedlab.ParseKnobs(a["knobs"]), exact)
+	r := &runner{replays: a["replaydir"]}
+	defer r.close()
+	v, err := r.run(c, "one")
+	if err != nil {
+		fmt.Println("lab error:", err)
+		os.Exit(2)
+	}
+	rp := mkReplay(c, v, true, r.lab)
+	if a["v"] == "1" {
+		b, _ := json.MarshalIndent(rp, "", " ")
+		fmt.Println(string(b))
+		fmt.Println("--- supergraph\n" + rp.SuperSDL)
+		for _, g := range c.Cfg.Subgraphs {
+			fmt.Println("--- subgraph " + g.Name + "\n" + rp.SubSDL[g.Name])
+		}
+	}
+	fmt.Println(caseLine(c, v, ""))
+	if v.LabError != "" {
+		fmt.Println("LAB ERROR:", v.LabError)
+		os.Exit(2)
+	}
+	if f := v.Failed(); len(f) > 0 {
+		fmt.Println("FAILED:", strings.Join(f, ","), "--", v.FailDetail())
+		if a["out"] != "" {
+			o := common.NewOut(a["out"])
+			o.Line(caseLine(c, v, r.writeReplay(rp, "")))
+			o.Close()
+		}
 		os.Exit(1)
 	}
-	defer lab.Close()
-	fmt.Println(lab.SuperSDL)
-	for n, s := range lab.SubSDL {
-		fmt.Println("#", n)
-		fmt.Println(s)
+	if a["out"] != "" {
+		o := common.NewOut(a["out"])
+		o.Line(caseLine(c, v, ""))
+		o.Close()
 	}
-	ops := []string{
-		`{ me { id name reviews { body product { title price } author { name } } } }`,
-		`query($i: ID!){ user(id: $i) { name greet(p: "yo") g2: greet reviews { id } } topProducts { upc title reviews { body author { id name } } } }`,
-		`{ latestReview { body author { name greet } product { title } } }`,
+	fmt.Println("OK")
+}
+
+// corpus lines: seed TAB index TAB uni TAB knobs (exact)
+func cmdCorpus(a map[string]string) {
+	out := common.NewOut(a["out"])
+	defer out.Close()
+	data, err := os.ReadFile(a["in"])
+	if err != nil {
+		return
 	}
-	for _, op := range ops {
-		vars := []byte(`{"i":"u2"}`)
-		r := lab.Run(op, vars, nil)
-		fmt.Println("OP:", op)
-		fmt.Println(" err:", r.Err)
-		fmt.Println(" resp:", string(r.Response))
-		for _, q := range r.Requests {
-			fmt.Printf("  [%d] %s %s vars=%s -> %s\n", q.Index, q.Subgraph, q.Query, q.Variables.String(), string(q.Response))
-		}
-		m, err := lab.Mono(op, "", vars)
-		if err != nil {
-			fmt.Println(" mono err:", err)
+	r := &runner{replays: a["replaydir"]}
+	defer r.close()
+	for _, line := range strings.Split(string(data), "\n") {
+		if strings.TrimSpace(line) == "" || strings.HasPrefix(line, "#") {
 			continue
 		}
-		fmt.Println(" mono:", m.Data.String(), m.NErrors, " equal:", m.Data.Equal(r.Data))
+		p := strings.Split(line, "\t")
+		if len(p) < 4 {
+			continue
+		}
+		var seed uint64
+		var idx, uni int
+		fmt.Sscan(p[0], &seed)
+		fmt.Sscan(p[1], &idx)
+		fmt.Sscan(p[2], &uni)
+		c := fedlab.BuildCase(seed, idx, uni, fedlab.ParseKnobs(p[3]), true)
+		v, err := r.run(c, fmt.Sprintf("corpus/%d/%d/%s", seed, c.CfgIdx(), p[3]))
+		if err != nil {
+			out.Line(common.L("c01", fmt.Sprintf("(id %d %d %d %s)", seed, idx, uni, common.QS(p[3])), "(laberror "+common.QS(err.Error())+")"))
+			continue
+		}
+		path := ""
+		if v.LabError == "" && len(v.Failed()) > 0 {
+			path = r.writeReplay(mkReplay(c, v, true, r.lab), "")
+		}
+		out.Line(caseLine(c, v, path))
+	}
+}
+
+func main() {
+	if len(os.Args) < 2 {
+		fmt.Println("usage: c01 gen|one|corpus|shrink ...")
+		os.Exit(2)
+	}
+	a := common.Args(os.Args[2:])
+	switch os.Args[1] {
+	case "gen":
+		cmdGen(a)
+	case "one":
+		cmdOne(a)
+	case "corpus":
+		cmdCorpus(a)
+	case "shrink":
+		cmdShrink(a)
+	default:
+		fmt.Println("unknown command")
+		os.Exit(2)
 	}
 }
